@@ -948,6 +948,22 @@ func (f *Frame) evalCall(e *spec.Call, st, old *State) TV {
 			return TV{p.Rel, types.Typ[types.Int]}
 		}
 		return TV{B.BVBin("bvsub", p.Idx, off), types.Typ[types.Int]}
+	case "dynval":
+		// dynval(e, T): the value of type T held by the interface value e (meaningful under dyn(e, T))
+		if len(e.Args) != 2 {
+			specErr("dynval(e, T)")
+		}
+		a := f.eval(e.Args[0], st, old)
+		iv, ok := a.V.(*Struct)
+		if _, isIface := a.T.Underlying().(*types.Interface); !isIface || !ok {
+			specErr("dynval: %s is not an interface value", e.Args[0])
+		}
+		tn := strings.ReplaceAll(e.Args[1].String(), " ", "")
+		t := f.typeByName(tn)
+		if t == nil {
+			specErr("dynval: unknown type %s", tn)
+		}
+		return TV{x.unbox(iv.Fields[1], t), t}
 	case "dynptr":
 		// dynptr(e): the data word of the interface value e (the pointer itself when e holds a pointer)
 		a := f.eval(e.Args[0], st, old)
